@@ -108,6 +108,69 @@ def oracle(chk: core.Check, thorough: bool):
                 break
 
 
+FIRST_CALL = r"""
+import sys, json
+import numpy as np
+import pybes3
+import pybes3.detectors.geometry.mdc as mdc
+gdir = __import__("pathlib").Path(mdc.__file__).parent
+m = dict(np.load(gdir / "mdc_geom.npz")); e = dict(np.load(gdir / "emc_geom.npz"))
+name = sys.argv[1]
+G = np.arange(len(m["gid"])); C = np.arange(len(e["gid"])); L = np.arange(43)
+first_of_layer = np.searchsorted(m["layer"], L)
+cases = {
+    "mdc_layer_to_is_stereo": (lambda: pybes3.mdc_layer_to_is_stereo(L.astype(np.int32)), m["is_stereo"][first_of_layer].astype(bool)),
+    "mdc_layer_to_superlayer": (lambda: pybes3.mdc_layer_to_superlayer(L), m["superlayer"][first_of_layer]),
+    "get_mdc_gid": (lambda: pybes3.get_mdc_gid(m["layer"], m["wire"]), m["gid"]),
+    "get_emc_gid": (lambda: pybes3.get_emc_gid(e["part"], e["theta"], e["phi"]), e["gid"]),
+    "mdc_gid_z_to_x": (lambda: pybes3.mdc_gid_z_to_x(G, m["west_z"]), m["west_x"]),
+    "emc_gid_to_point_x": (lambda: pybes3.emc_gid_to_point_x(C, np.full(len(C), 3)), e["points_x"][:, 3]),
+}
+for k in ["superlayer", "layer", "wire", "stereo", "is_stereo", "west_x", "west_y", "west_z", "east_x", "east_y", "east_z"]:
+    cases["mdc_gid_to_" + k] = ((lambda k=k: getattr(pybes3, "mdc_gid_to_" + k)(G)), m[k])
+for k in ["part", "theta", "phi", "center_x", "center_y", "center_z", "front_center_x", "front_center_y", "front_center_z"]:
+    cases["emc_gid_to_" + k] = ((lambda k=k: getattr(pybes3, "emc_gid_to_" + k)(C)), e[k])
+f, want = cases[name]
+got = np.asarray(f())                                  # the FIRST geometry call of this process
+bad = np.nonzero(np.asarray(got).astype(np.float64) != np.asarray(want).astype(np.float64))[0]
+print(json.dumps({"function": name, "n": int(len(want)), "n_bad": int(len(bad)), "first_bad": (int(bad[0]) if len(bad) else None),
+                  "got": (float(got[bad[0]]) if len(bad) else None), "want": (float(np.asarray(want)[bad[0]]) if len(bad) else None)}))
+"""
+
+
+def first_calls(chk: core.Check, thorough: bool):
+    """call order: in a fresh process with an empty private numba cache the FIRST geometry call is each function in turn (a kernel compiled
+    before the tables are loaded would freeze placeholders); the result must be the published values"""
+    from concurrent.futures import ThreadPoolExecutor
+    names = ["mdc_layer_to_is_stereo", "mdc_layer_to_superlayer", "get_mdc_gid", "get_emc_gid", "mdc_gid_z_to_x", "emc_gid_to_point_x"]
+    if thorough:
+        names += ["mdc_gid_to_" + k for k in ["superlayer", "layer", "wire", "stereo", "is_stereo", "west_x", "east_z"]] + ["emc_gid_to_" + k for k in ["part", "theta", "phi", "center_x", "front_center_z"]]
+    else:
+        rng = __import__("random").Random(f"C09-first-{chk.seed}")
+        names += rng.sample(["mdc_gid_to_" + k for k in ["superlayer", "layer", "wire", "stereo", "is_stereo", "west_x", "east_z"]] + ["emc_gid_to_" + k for k in ["part", "theta", "phi", "center_x", "front_center_z"]], 2)
+
+    def one(name):
+        cache = tempfile.mkdtemp(prefix="c09-first-")
+        try:
+            p = subprocess.run([core.PY, "-c", FIRST_CALL, name], capture_output=True, text=True, timeout=900, env=dict(os.environ, NUMBA_CACHE_DIR=cache))
+            if p.returncode != 0:
+                return {"function": name, "error": p.stderr[-600:]}
+            return json.loads(p.stdout.strip().splitlines()[-1])
+        finally:
+            shutil.rmtree(cache, ignore_errors=True)
+    with ThreadPoolExecutor(max_workers=4) as ex:
+        results = list(ex.map(one, names))
+    for r in results:
+        chk.count(r.get("n", 1), key=f"first-call-{r['function']}")
+        if r.get("error"):
+            chk.failing_input("first geometry call of a fresh process", {"function": r["function"]}, r["error"], "the published values", "every per-element lookup returns exactly the row of the published table")
+            return
+        if r["n_bad"]:
+            chk.failing_input("first geometry call of a fresh process (empty numba cache)", {"function": r["function"], "first_differing_element": r["first_bad"], "elements_differing": r["n_bad"]}, r["got"], r["want"],
+                              "every per-element lookup returns exactly the row of the published table for that element, whatever was called before")
+            return
+
+
 def histories(chk: core.Check, what="lookup after the caller modified a handed-out table",
               clause="tables handed to the caller are private copies: modifying them never changes later lookups"):
     cache = tempfile.mkdtemp(prefix="c09-nbcache-")
@@ -150,6 +213,8 @@ def main(chk: core.Check) -> int:
     try:
         oracle(chk, thorough)
         histories(chk)
+        if not chk.failing:
+            first_calls(chk, thorough)
     except Exception as ex:
         import traceback
         chk.obligation_broken("correspondence", "oracle run on implementation", f"{type(ex).__name__}: {ex}\n{traceback.format_exc()[-1500:]}")
